@@ -234,6 +234,12 @@ class C05(Prop):
                 want_r = -1.0 if zero else (smin / smax if smax != 0 else float("nan"))
                 if not (rr == want_r or (rr != rr and want_r != want_r) or (smax == 0 and not zero)):
                     return (f"column R = {rr} but S_min/S_max = {want_r}", "derived-columns")
+        # two detectors alive at once with alternating passes: the first one reports what it reports alone
+        if len(s) <= 8:
+            d2, r2 = hcm.run_two_detectors_alternately(s, ratios, hcm.StubLaw(lawname), case.get("labels", "0..n-1"))
+            if hcm.canon(d2, r2, n) != hcm.canon(det, rec, n):
+                return (f"a detector whose passes alternate with those of a second detector (mirrored sequence) reports "
+                        f"{hcm.canon(d2, r2, n)[:300]}, alone {hcm.canon(det, rec, n)[:300]} (sequence {s}, factors {ratios})", "batch-vs-single")
         # (ii) batch = single for proportional load histories
         if n > 1:
             for k in range(n):
